@@ -105,7 +105,7 @@ PROPS = {
         assumptions=['monotone clock: every write stamps a later mtime than all earlier ones (real time.Now on a MapFS)'],
     ),
     "C11": dict(
-        modules=["Gopki.Props.C11"], theorems=['C11.C11_needsUpdate_iff', 'C11.C11_no_flags_no_regen', 'C11.C11_flags_table', 'C11.C11_strategy_bits', 'Conv.run_converges', 'Forest.bfs_main'], ops=['hist', 'pki'],
+        modules=["Gopki.Props.C11"], theorems=['C11.C11_needsUpdate_iff', 'C11.C11_plan_eq_spec', 'C11.foldl_planStep_spec', 'C11.C11_no_flags_no_regen', 'C11.C11_flags_table', 'C11.C11_strategy_bits', 'Conv.run_converges', 'Forest.bfs_main'], ops=['hist', 'pki'],
         rule="hist: forests of 1-4 entities, a first default run, then 1-5 (thorough 1-9) steps drawn from {edit config, delete/truncate/strip-block/replace artifact, touch config, run with one of 12 flag sets, run with an injected write fault (error / torn prefix / death after write)}, "
              "then a default run (convergence evaluated) and another default run (must be a no-op); every run is replayed on the model from the directory observed before it; non-trivial = at least three runs" + "pki: forests of 1-5 entities (random parent vector, nested directories, yaml/yml/json), every key algorithm except RSA>=2048 in quick, configured/omitted signature algorithms, "
              "subjects from the documented grammar incl. UTF-8 and custom OIDs, 0-6 extensions of all 11 kinds, serials, unique ids, validity forms, manipulations in 1 of 5 forests, 6 zone offsets, 5 flag sets; "
@@ -159,7 +159,7 @@ PROPS = {
         assumptions=[],
     ),
     "C17": dict(
-        modules=['Gopki.Props.C17', 'Gopki.Props.C05'], theorems=['C17.C17_scalar_width', 'C17.C17_scalar_roundtrip', 'C17.C17_reject_out_of_range', 'C17.C17_curve_table', 'C17.C17_unknown_curve', 'X509.decodeDer_enc', 'X509.decodeDer_sound', 'C05.model_curves_eq_facts'], ops=["pkcs8", "pemfile"],
+        modules=['Gopki.Props.C17', 'Gopki.Props.C05'], theorems=['C17.C17_scalar_width', 'C17.C17_scalar_roundtrip', 'C17.C17_reject_out_of_range', 'C17.C17_curve_table', 'C17.C17_unknown_curve', 'C17.C17_pkcs8_roundtrip', 'C17.C17_sec1_roundtrip', 'X509.decodeDer_enc', 'X509.decodeDer_sound', 'C05.model_curves_eq_facts'], ops=["pkcs8", "pemfile"],
         rule="pkcs8: ten curves x scalars {1, 2, 255, 256, n-1, n/2, 2^(8(w-1)), 2^(8(w-1))-1, 2^(8(w-2)), 20 (thorough 200) random incl. 1-3 leading zero octets} written by gopki and read back (also through PEM, and by crypto/x509 for NIST curves), "
              "the same scalars in six foreign forms (parameters inner-only / both / none / unknown curve, stripped and padded scalars), crypto/x509-written keys, invalid scalars 0, n, n+1, 2^(8w)-1, RSA 1024/2048 (thorough 3072/4096) both directions, "
              "1500 (thorough 30000) single-byte mutations of a valid key; pemfile: all 16 combinations of hash line / certificate / key / request in two orders for three key types, and torn prefixes at every block boundary +-2 and 64 random offsets (thorough: every offset); "
